@@ -762,9 +762,53 @@ def extra_programs():
         mk("fillna_filter_isna", lambda t: (lambda x: x[x.c == 0])(L(t).fillna(0))),
         mk("dropdup_proj", lambda t: L(t).drop_duplicates(subset=["b"])[["b"]], unordered=True),
         mk("valuecounts_filter", lambda t: (lambda x: x[x.b > 0].b.value_counts())(L(t)), unordered=True),
+        # shapes of the defects fixed later in the project (D8, D9, D18, D27, D29, D31, D32, D33)
+        mk("astype_int_filter", lambda t: (lambda x: x[x.a > 0])(_own(e2e.T_neg(), [0, 3, 6, 8]).astype("int64"))),
+        mk("halves_astype_filter", lambda t: (lambda x: x[x.a > 0])((L(t)[["a", "b"]] / 2).astype("int64"))),
+        mk("leftmerge_nosuffix_filter_right", lambda t: (lambda m: m[m.c > 101])(L(t).merge(R(t), on="b", how="left", suffixes=("_x", ""))),
+           unordered=True, noindex=True),
+        mk("merge_or_factored_right", lambda t: L(t).merge(
+            (lambda r: r[((r.c > 100) & (r.d > 20)) | ((r.c > 100) & (r.d < 20))])(R(t)), on="b"), unordered=True, noindex=True),
+        mk("merge_or_factored_left", lambda t: (lambda l: l[((l.a > 1) & (l.b == 1)) | ((l.a > 1) & (l.b == 3))])(L(t)).merge(R(t), on="b"),
+           unordered=True, noindex=True),
+        mk("resetindex_compound_filter", lambda t: (lambda x: x[(x["index"] > 2) & (x.a > 1)])(L(t).reset_index()), noindex=True),
+        mk("series_resetindex_compound_filter", lambda t: (lambda x: x[(x["index"] > 2) & (x.a > 1)])(L(t).a.reset_index()), noindex=True),
+        mk("concat_disjoint_proj", lambda t: programs._concat([L(t)[["a", "b"]], R(t)[["c", "d"]]])[["a"]]),
+        mk("add_repartitioned_proj", lambda t: (L(t)[["a", "b"]] + _own(e2e.T_int(), [0, 8])[["a", "b"]])[["a"]]),
+        mk("add_repartitioned_col", lambda t: (L(t)[["a", "b"]] + _own(e2e.T_int(), [0, 5, 8])[["a", "b"]])["a"]),
+        mk("astype_prefix_label", lambda t: L(t).assign(ab=L(t).a + 1).astype({"a": "float64"})["ab"]),
+        mk("parquet_arrow_ne", lambda t: (lambda r: r[r.c != 1.0])(_parquet()), noindex=True),
+        mk("parquet_arrow_ne_or", lambda t: (lambda r: r[(r.c != 1.0) | (r.b == 2)][["a", "c"]])(_parquet()), noindex=True),
+        mk("parquet_arrow_gt_proj", lambda t: (lambda r: r[r.a > 3][["b"]])(_parquet()), noindex=True),
     ]
     _EXTRA = out
     return out
+
+
+def _own(pdf, cuts):
+    """a second collection over a vetted table with its own partitioning (known divisions)"""
+    return e2e.frame_from_cuts(pdf, cuts, True)
+
+
+_PQ = {}
+
+
+def _parquet():
+    """T_int written as a two-file parquet dataset (scratch directory of this process, removed at exit),
+    read back through the arrow filesystem (the reader that accepts pushed-down filters)"""
+    import atexit
+    import shutil
+    import tempfile
+
+    import dask_expr as dx
+
+    key = os.getpid()
+    if key not in _PQ:
+        d = tempfile.mkdtemp(prefix="c01pq")
+        atexit.register(shutil.rmtree, d, True)
+        dx.from_pandas(e2e.T_int(), npartitions=2).to_parquet(d)
+        _PQ[key] = d
+    return dx.read_parquet(_PQ[key], filesystem="arrow")
 
 
 def _len_expr(coll):
